@@ -522,3 +522,23 @@ def cache_keys(ctx):
     between objects every attribute of self - that the cached value depends on through data or control flow."""
     from .common_cache import cache_keys as run
     run(ctx, [('keys', lambda q: q.startswith('Key.') or q.startswith('Address.') or '.' not in q), ('encoding', lambda q: True)], 'Key / Address methods, keys and encoding functions')
+
+
+@PROP.obligation('C04.attr-memos')
+def attr_memos(ctx):
+    """Key / HDKey / Address cache derived values in attributes (_hash160, _wif, _address_obj, _public_uncompressed_*, _x, _y, ...). For
+    every such memo the state it was computed from is collected (attributes of self read by the filling code, properties expanded, minus
+    what the reuse test validates), and every method of the class family that assigns one of those attributes must reset the memo:
+    otherwise the hash / address / WIF reported afterwards describes the previous state of the key."""
+    from .common_cache import attr_memos as run
+    n = run(ctx, 'keys', [['Address'], ['Key', 'HDKey'], ['Signature']], 'Key / HDKey / Address / Signature',
+            'hash160, address or WIF of the key are reported for the compression flag / network it had before')
+    ctx.floor(n, 8, 'attribute memos in keys.py')
+
+
+@PROP.obligation('C04.defaults')
+def api_defaults(ctx):
+    """Defaults of the parameters that decide this property for callers who do not pass them: strict validation and compressed keys are the defaults."""
+    from .common_defaults import defaults as run
+    n = run(ctx, [('keys:Key.__init__', 'strict', 'True'), ('keys:Key.__init__', 'compressed', 'True'), ('keys:HDKey.__init__', 'compressed', 'True'), ('scripts:Script.parse', 'strict', 'True'), ('scripts:Script.parse_bytesio', 'strict', 'True'), ('scripts:Script.parse_bytes', 'strict', 'True'), ('scripts:Script.parse_hex', 'strict', 'True'), ('transactions:Input.__init__', 'strict', 'True'), ('transactions:Output.__init__', 'strict', 'True'), ('transactions:Transaction.parse', 'strict', 'True'), ('transactions:Transaction.parse_bytesio', 'strict', 'True'), ('transactions:Transaction.add_input', 'strict', 'True'), ('transactions:Transaction.add_output', 'strict', 'True')], 'invalid public keys / non-standard scripts are accepted by default')
+    ctx.floor(n, 12, 'parameter defaults')
